@@ -218,10 +218,17 @@ llm_rails_instances = {}
 llm_rails_events_history_cache = {}
 
 
-def _generate_cache_key(config_ids: List[str]) -> str:
-    """Generates a cache key for the given config ids."""
+def _generate_cache_key(config_ids: List[str]):
+    """Generates a cache key for the given config ids.
 
-    return "-".join((config_ids))  # remove sorted
+    A single config id is its own key; a combination of several ids is keyed by the
+    tuple of the ids, which cannot be mistaken for any single id or other combination.
+    """
+
+    if len(config_ids) == 1:
+        return config_ids[0]
+
+    return tuple(config_ids)
 
 
 def _get_rails(config_ids: List[str]) -> LLMRails:
